@@ -55,6 +55,9 @@ def bits_term(r):
 
 
 P2P_ALLOC_FACTOR, P2P_ALLOC_CONST = 32, 1 << 20   # whole-process TotalAlloc while one stream is handled
+# smallest number of cases of each record kind a (non-replay) run must contain: met by construction, a generator that silently
+# produces nothing fails the check instead of passing it
+FLOORS = {"s": 5000, "v": 2000, "n": 3000, "m": 1000, "p": 50, "bits": 100, "rmt": 100}
 ALLOC_FACTOR, ALLOC_CONST = 64, 32768   # bytes allocated by one decode <= 64 * len(input) + 32 KiB
 
 
@@ -116,12 +119,20 @@ def run_p2p(ck, binp, scale, replay_in=None, background=False, prestarted=None):
                     f["spec_violated"] = True
                     f["theorem_or_correspondence"] = "C09 oracle: stream handlers terminate, memory bounded by the message size"
                     ck.failures.append(f)
+            elif r["phase"] == "late":
+                name = "onResponse" if r["resp"] else "onRequest"
+                f = dict(kind="input", key="c09:p:%s:hang" % name, case=dict(r, phase="pending"),
+                         what="p2p MessageProtocol %s: %d goroutine(s) found inside a stream handler after the case had been judged "
+                              "(handler started late and never returned) on raw stream bytes %s" % (name, r.get("gleak", 0), r["d"][:200]))
+                f["spec_violated"] = True
+                f["theorem_or_correspondence"] = "C09 oracle: stream handlers terminate"
+                ck.failures.append(f)
             elif r["phase"] == "end":
                 ended = True
     ck.extra["p2p_stream_cases"] = done
-    if rc == 0 and ended and not replay_in and min(per_class.values()) == 0:
-        ck.fail_obligation("harness-run:p2p", "p2p stream driver ran no case on the %s stream" % (
-            "response" if per_class[True] == 0 else "request"))
+    if rc == 0 and ended and not replay_in and min(per_class.values()) < FLOORS["p"]:
+        ck.fail_obligation("harness-run:p2p", "p2p stream driver ran only %d request-stream and %d response-stream cases (floor %d each)" % (
+            per_class[False], per_class[True], FLOORS["p"]))
     if rc != 0 or not ended:
         if pending:
             for i, r in sorted(pending.items())[-1:]:
@@ -143,13 +154,17 @@ def rmt_term(r):
     idxs = "[" + "; ".join(v for v in o["idxs"].split(",") if o["idxs"] != "") + "]"
     ok = (r["res"] == "true") if r["f"] == "rmt.VerifyProof" else (r["res"] == "ok")
     return "(%s, %s, %s, %s, %s, %s, %d, %s)" % (cbool(r["f"] != "rmt.VerifyProof"), hl(a["hashes"]), o["size"], idxs,
-                                             hl(o["sibs"]), cbytes(a["root"]), r["st"], cbool(ok))
+                                             hl(o["sibs"]), cbytes(o.get("root", "") if r["f"] != "rmt.VerifyProof" else a["root"]), r["st"], cbool(ok))
 
 
-def evaluate(ck, recs, sample_cap):
+def evaluate(ck, recs, sample_cap, floors=False):
     # 1. the property oracle on every record: no recovered panic, no timeout
     for r in recs:
         ck.count()
+        if r["k"] in ("n", "v") and "ms" in r:
+            # informative only: wall time and process-wide allocation per call (the enforced time bound is the 3 s watchdog)
+            ck.extra["max_call_ms"] = max(ck.extra.get("max_call_ms", 0), r["ms"])
+            ck.extra["max_call_alloc"] = max(ck.extra.get("max_call_alloc", 0), r.get("alloc", 0))
         if r["k"] == "n":
             ck.nontrivial(("n", r["f"], r["gen"], r["res"], r["d"][:32], len(r["d"])))
             if r["st"] in (2, 3):
@@ -174,13 +189,32 @@ def evaluate(ck, recs, sample_cap):
                 f["theorem_or_correspondence"] = "C09_read_bytes_alloc_bounded (allocation <= remaining input) vs runtime.MemStats.TotalAlloc"
                 ck.failures.append(f)
             continue
-        if r["k"] == "v" and r.get("a", {}).get("gen") and r["st"] == 0 and r["res"] == "true" and \
+        if r["k"] == "v" and (r["f"].startswith("BLS") or r["f"] == "CertVerifyAggregate") and r.get("a", {}).get("gen") \
+                and r["st"] == 0 and r["res"] == "true" and \
                 r["a"]["gen"] not in ("valid", "valid-key/valid-sig"):
             f = dict(kind="input", key="c09:v:%s:accepts-invalid-point" % r["f"], case=r,
                      what="%s accepts a key list / signature containing an invalid point (%s)" % (r["f"], r["a"]["gen"]))
             f["spec_violated"] = True
             f["theorem_or_correspondence"] = "C09 oracle: nil / infinity / off-subgroup points make BLS verification fail"
             ck.failures.append(f)
+        if r["k"] == "v" and r["f"] in ("BLSVerifyAggSig", "BLSVerifyWeightedAggSig") and r.get("a", {}).get("gen") == "valid" \
+                and r["st"] == 0 and r["res"] != "true":
+            f = dict(kind="input", key="c09:v:%s:rejects-valid" % r["f"], case=r,
+                     what="%s rejects a list of valid keys with the aggregate signature of all of them" % r["f"])
+            f["spec_violated"] = True
+            f["theorem_or_correspondence"] = "C09 oracle: genuine aggregate signatures verify"
+            ck.failures.append(f)
+        if r["k"] == "v" and r.get("a", {}).get("gen") in ("accepting", "wrong-root", "bad-sibling") and r["st"] == 0:
+            g = r["a"]["gen"]
+            want = {"rmt.VerifyProof": "true" if g == "accepting" else "false", "rmt.CalculateRootFromUpdateData": "ok"}[r["f"]]
+            okroot = r["f"] == "rmt.VerifyProof" or r.get("obs", {}).get("root") == r["a"]["root"]
+            if r["res"] != want or not okroot:
+                f = dict(kind="input", key="c09:v:%s:%s" % (r["f"], g), case=r,
+                         what="%s on a genuine proof (%s): result %s, expected %s%s" % (r["f"], g, r["res"], want,
+                                                                                    "" if okroot else "; recomputed root differs from the tree root"))
+                f["spec_violated"] = True
+                f["theorem_or_correspondence"] = "C09/C11 oracle: genuine rmt proofs verify, a wrong root / sibling does not"
+                ck.failures.append(f)
         if r["k"] == "s":
             bad = r["st"] in (2, 3) or r["sst"] in (2, 3)
             name = r["name"]
@@ -245,6 +279,12 @@ def evaluate(ck, recs, sample_cap):
                 f["theorem_or_correspondence"] = "Corr.C09.check_rmt"
                 ck.failures.append(f)
     ck.extra["rmt_model_cases"] = len(rrecs) - skipped_big
+    if floors:
+        counts = {k: sum(1 for r in recs if r["k"] == k) for k in ("s", "v", "n", "m")}
+        counts["bits"], counts["rmt"] = len(brecs), len(rrecs) - skipped_big
+        for k, n in sorted(counts.items()):
+            if n < FLOORS[k]:
+                ck.fail_obligation("case-floor:" + k, "only %d cases of kind %s (floor %d): a generator produced (almost) nothing" % (n, k, FLOORS[k]))
     ck.extra["model_agreement_cases"] = len(srecs) + len(brecs) + len(rrecs) - skipped_big
     ck.extra["skipped_nfc_undecided"] = skipped
 
@@ -276,7 +316,7 @@ def run(ck):
         fut.result()
         return
     recs += got
-    evaluate(ck, recs, cap)
+    evaluate(ck, recs, cap, floors=True)
     run_p2p(ck, binp, net, prestarted=fut)
     for r in [x for x in recs if x["k"] == "s" and x["gen"] == "trunc"][:2] + [x for x in recs if x["k"] == "v"][:2]:
         ck.sample(r)
